@@ -348,10 +348,12 @@ def standard_flow(res: CheckResult, files: list[str], targets: list[str], concre
             if not is_prop:
                 res.extra.setdefault("unproved_supporting", []).append(o["name"])
                 print(f"UNPROVED supporting clause {o['name']} ({o['status']} - {o['backend']})")
-            if base and o["name"] in base["proved"] and base["tree"] != tree_hash():
-                # the interface's rule for a failed obligation without a counterexample: this obligation was
-                # discharged on the tree the baseline was recorded on, the tree has changed since, and the
-                # verifier no longer accepts it (also not with the larger budget)
+            if o["status"] == "refuted" and base and o["name"] in base["proved"] and base["tree"] != tree_hash():
+                # the interface's rule for a failed obligation without a replayable input: this obligation was
+                # discharged on the tree the baseline was recorded on, the tree has changed since, and the verifier now
+                # *refutes* it (a counter-model to the verification condition exists, confirmed by the cross-check).
+                # An obligation the solvers merely fail to decide (timeout / unknown) is never an alarm: it is reported
+                # as UNDECIDED (exit 2) - a harmless refactoring can make a proof too hard without making it wrong.
                 text = replay_header(res.prop, f"obligation {o['name']} was discharged on the baseline tree and is no longer accepted by the verifier ({o['status']}, {o['backend']})") + \
                     f"\nprint('failed obligation: {o['name']}')\nprint('verifier output: status={o['status']} back ends={o['backend']} solver_ms={o['ms']}')\n" \
                     f"print('baseline tree {base['tree'][:16]}, this tree {tree_hash()[:16]}')\nsys.exit(1)\n"
